@@ -46,12 +46,14 @@ def runLines (e : Env) : Sess → List Str → List (List Ev) → Outcome (Sess 
     | .err m => .err m
     | .panic site => .panic site
 
-def rdSession : Rd (List Str × Str × List Str × List Str) := do
+def rdSession : Rd (List Str × Str × Str × Str × List Str × List Str) := do
   let types ← Rd.list Rd.str
   let dflt ← Rd.str
+  let sort0 ← Rd.str
+  let gran0 ← Rd.str
   let badFloats ← Rd.list Rd.str
   let lines ← Rd.list Rd.str
-  pure (types, dflt, badFloats, lines)
+  pure (types, dflt, sort0, gran0, badFloats, lines)
 
 def ops : List (String × (List String → String)) := [
   -- tagfilter <value>  →  absent | range <kind> | regexp <key> <value> | err | panic <site>
@@ -99,15 +101,18 @@ def ops : List (String × (List String → String)) := [
       | .ok (cmd, cfg) => "ok " ++ Wr.render (evTok (.report cmd cfg true))
       | .err _ => "err"
       | .panic s => "panic " ++ s),
-  -- session <sampleTypes> <defaultSampleType> <values ParseFloat rejects> <lines>
+  -- session <sampleTypes> <defaultSampleType> <initial sort> <initial granularity> <values ParseFloat rejects> <lines>
+  --   (sort/granularity cannot be reset through flags in a long-lived process, so the harness passes
+  --    the values the real session started with)
   --   →  panic <site> | ok <nlines> (<nev> <ev>…)… <final option values in table order>
   ("session", fun ts =>
     match Rd.run rdSession ts with
     | none => "bad-op"
-    | some (types, dflt, badFloats, lines) =>
+    | some (types, dflt, sort0, gran0, badFloats, lines) =>
       let e := { envAscii with parseFloatOk := fun v => !badFloats.contains v }
       -- interactive() starts with configure("compact_labels", "true")
-      let s0 : Sess := { cfg := defaultCfg.put (S "compact_labels") (.b true), prof := ⟨types, dflt⟩ }
+      let s0 : Sess := { cfg := ((defaultCfg.put (S "compact_labels") (.b true)).put (S "sort") (.s sort0)).put
+                           (S "granularity") (.s gran0), prof := ⟨types, dflt⟩ }
       match runLines e s0 lines [] with
       | .ok (s, evs) =>
         "ok " ++ Wr.render (Wr.list (fun ev => Wr.list evTok ev) evs ++ Crash.fields.map (fun f => valTok (s.cfg f.name)))
